@@ -19,7 +19,7 @@ RULE = ("exhaustive small scope: request sizes n in 1..6, every script of length
 ASSUMPTIONS = ["fake sockets obey OS realism rules: EOF is sticky; n=0 judged leniently",
                "retry back-off sleeps are replaced by no-ops (socketutil.time swapped from the harness)"]
 REQUIRED_REACH = ["real_socket_low_fd_ok", "recv_ok", "recv_eof_error", "recv_fatal_error", "recv_timeout_error", "send_ok", "send_error", "retry_transparent"]
-SHARD_TIMEOUT = {"quick": 200, "thorough": 2400}
+SHARD_TIMEOUT = {"quick": 480, "thorough": 2400}
 
 R_ALPHA = [("d", 1), ("d", 2), ("rest",), ("e", errno.EINTR), ("e", errno.EAGAIN), ("e", errno.EINPROGRESS),
            ("e", errno.ECONNRESET), ("e", errno.EPIPE), ("x", "Socket is closed"), ("t",), ("eof",)]
